@@ -2,6 +2,7 @@ import GwModel.Select
 import GwModel.Gen.Facts
 import GwModel.PlanPlaced
 import GwModel.NewOpts
+import GwModel.UrlMap
 /-! # C20 — Multi-homed fields are fetched by priority, then locality
 
 The chooser of plan.go is modelled by `Sel.selectLocation`, instantiated with the priority order extracted
@@ -87,6 +88,25 @@ theorem a_repeated_entry_is_immaterial (possible pre mid post : List Loc) (x par
 
 example : selectLocation Gen.selectLoc ["B", "C"] ["", "C", "B"] "A" "gw" = some "C" ∧
           selectLocation Gen.selectLoc ["B", "C"] ["A", "A", "C", "B"] "A" "gw" = some "C" := by decide
+
+/-- **the table the chooser reads lists a field's services once per registration, in the order of registration** —
+    whatever the locations look like next to one another (one a prefix or a substring of the other) and however long
+    the key is (`Um`, the model of FieldURLMap, tied by L2.urlmap) -/
+theorem registered_locations_are_listed_in_order (m : Um.Tbl) (parent field : String) (a b : Um.Loc)
+    (h : Um.get m (Um.keyFor parent field) = none) :
+    Um.urlFor (Um.register m parent field [a, b]) parent field = .ok [a, b] := Um.register_two m parent field a b h
+
+/-- registering a location for one field leaves every other field's list as it was -/
+theorem registering_elsewhere_changes_nothing (m : Um.Tbl) (parent field parent' field' : String) (loc : Um.Loc)
+    (hne : Um.keyFor parent' field' ≠ Um.keyFor parent field) :
+    Um.urlFor (Um.register1 m parent field loc) parent' field' = Um.urlFor m parent' field' :=
+  Um.urlFor_register1_other m parent field parent' field' loc hne
+
+/-- and what was registered is found, as the last entry of the field's list -/
+theorem a_registered_location_is_found (m : Um.Tbl) (parent field : String) (loc : Um.Loc) :
+    ∃ before, Um.urlFor (Um.register1 m parent field loc) parent field = .ok (before ++ [loc]) := by
+  obtain ⟨b, h, _⟩ := Um.urlFor_register1 m parent field loc
+  exact ⟨b, h⟩
 
 /-- non-vacuity -/
 example : selectLocation Gen.selectLoc ["A", "B", "C"] ["Z", "C", "B"] "A" "gw" = some "C" ∧
